@@ -556,6 +556,8 @@ class RFan(Row):
 
 class RCover(Row):
     name = "Cover"
+    _mark = 0
+    ctx = None
 
     def gen_cfg(self, rng, ctx):
         return {
@@ -599,6 +601,19 @@ class RCover(Row):
         ops = []
         for _ in range(max(3, n // 2)):
             c = rng.random()
+            if rng.random() < 0.4:
+                # a timed command sequence: 2-3 setter calls, the later ones arriving while the cover still travels (or after it
+                # arrived); judged on the state after the LAST command's travel time
+                seq = []
+                for _j in range(rng.randint(2, 3)):
+                    k = rng.random()
+                    if k < 0.7:
+                        cmd = ["set_position", rng.choice((0, 100, 50, rng.randint(0, 100), rng.randint(1, 99)))]
+                    else:
+                        cmd = [rng.choice(("set_up", "set_down")), None]
+                    seq.append(cmd + [rng.choice(("zero", "eighth", "quarter", "half", "most", "beyond"))])
+                ops.append(["sequence", seq])
+                continue
             if c < 0.5:
                 ops.append(["set_position", rng.choice((0, 100, 50, rng.randint(0, 100), rng.randint(1, 99)))])
             elif c < 0.62:
@@ -615,12 +630,29 @@ class RCover(Row):
         return dev.current_position()
 
     async def call(self, h, dev, cfg, op):
+        if op[0] == "sequence":
+            tt = max(cfg["tt_down"], cfg["tt_up"])
+            gaps = {"zero": 0.0, "eighth": tt / 8, "quarter": tt / 4, "half": tt / 2, "most": tt * 0.875, "beyond": tt + 2}
+            for i, (name, val, gap) in enumerate(op[1]):
+                self._mark = len(h.iface.sent)
+                if val is None:
+                    await getattr(dev, name)()
+                else:
+                    await getattr(dev, name)(val)
+                if i + 1 < len(op[1]):
+                    await h.settle()
+                    if gaps[gap] > 0:
+                        await asyncio.sleep(gaps[gap])
+                        await h.settle()
+            return
         if op[1] is None:
             await getattr(dev, op[0])()
         else:
             await getattr(dev, op[0])(op[1])
 
     def observe(self, dev, cfg, op, pre):
+        if op[0] == "sequence":
+            return []
         if op[0] == "set_angle":
             return [("current_angle", dev.current_angle(), op[1], scaling_rep(0, 100))]
         if op[0] == "set_position" and "position" in cfg["layout"]:
@@ -630,8 +662,15 @@ class RCover(Row):
     async def after(self, h, dev, cfg, op, pre):
         if op[0] == "set_angle":
             return []
+        if op[0] == "sequence" and len(h.iface.sent) == self._mark:
+            # the last command sent no telegram (e.g. set_position(p) while the estimate happens to equal p, even though the cover
+            # is travelling elsewhere): the statement speaks about the telegrams a setter sends -> recorded, not judged
+            self.ctx.count("cover_sequence_last_command_sent_nothing_not_judged")
+            return []
         await asyncio.sleep(max(cfg["tt_down"], cfg["tt_up"]) + 2)
         await h.settle()
+        if op[0] == "sequence":
+            op = op[1][-1][:2]  # the last requested value counts
         want = op[1] if op[0] == "set_position" else (0 if op[0] == "set_up" else 100)
         out = [("current_position_after_travel", dev.current_position(), want, scaling_rep(0, 100))]
         if op[0] == "set_up":
@@ -1297,12 +1336,13 @@ def run(ctx):
     ctx.require("setter_calls", "telegrams_looped_back", "judged_exact", "judged_representable", "judged_between",
                 "calls[Climate.set_setpoint_shift]", "calls[Climate.set_target_temperature]", "calls[Cover.set_position]",
                 "calls[Switch.set_on]", "calls[Light.set_brightness]", "calls[Fan.set_speed]", "calls[ClimateMode.set_operation_mode]",
-                "calls[NumericValue.set]", "ga_dpt_table_own", "ga_dpt_table_relative", "ga_dpt_table_unrelated", "ga_dpt_table_none",
+                "calls[NumericValue.set]", "calls[Cover.sequence]", "ga_dpt_table_own", "ga_dpt_table_relative", "ga_dpt_table_unrelated", "ga_dpt_table_none",
                 "ga_dpt_relative_parent", "ga_dpt_relative_child", "ga_dpt_entries_installed")
     n_cfg = ctx.scale(20, 60)
     n_val = ctx.scale(24, 40)
     item = 0
     for row in rows():
+        row.ctx = ctx
         if isinstance(row, RNumeric):
             cfgs = [{"dpt": c.__name__, "value_type": c.value_type} for c in row.classes(ctx)]
             reps = ctx.scale(3, 8)
@@ -1331,6 +1371,7 @@ def run(ctx):
 def replay(ctx, witness):
     ctx.rule = "replay of one recorded configuration and setter sequence"
     row = next(r for r in rows() if type(r).__name__ == witness["row_class"] and r.name == witness["row"])
+    row.ctx = ctx
     run_config(ctx, row, witness["cfg"], witness["ops"], "replay", 0)
     ctx.distinct("replay")
     ctx.distinct("replay2")
